@@ -176,6 +176,38 @@ def _names_in(obj, vocab, out):
         out.append(obj)
 
 
+def _edit_enums(o, depth=0):
+    """Object API: set every SuitEnum found below `o` to ANOTHER name of its key space (in place).  Returns the number of edits."""
+    from suit_generator.suit.types.common import SuitEnum, SuitObject
+    import cbor2
+    if depth > 60:
+        return 0
+    if isinstance(o, SuitEnum):
+        other = next((ch.name for ch in o._metadata.children if ch.name != o.value), None)
+        if other is not None:
+            o.value = other
+            return 1
+        return 0
+    if isinstance(o, SuitObject):
+        return _edit_enums(getattr(o, "value", None), depth + 1)
+    if isinstance(o, dict):
+        return sum(_edit_enums(v, depth + 1) for v in list(o.values()))
+    if isinstance(o, (list, tuple)):
+        return sum(_edit_enums(v, depth + 1) for v in o)
+    if isinstance(o, cbor2.CBORTag):
+        return _edit_enums(o.value, depth + 1)
+    return 0
+
+
+def _history_ok(b, back):
+    """parse(b) -> edit the result's enums in place -> parse(b) again must render what the first parse rendered."""
+    from suit_generator.suit.envelope import SuitEnvelopeTagged
+    first = SuitEnvelopeTagged.from_cbor(b)
+    n = _edit_enums(first)
+    again = SuitEnvelopeTagged.from_cbor(b).to_obj()
+    return n, again == back
+
+
 def bounded(ctx):
     import copy, importlib
     from bounded.harness import Bounded
@@ -192,6 +224,7 @@ def bounded(ctx):
     from suit_generator.suit.envelope import SuitEnvelopeTagged
     vocab = {R.name_of(c) for cs in R.SPACES.values() for c in cs}
     used = set()
+    edits = 0
     for name, desc in G.systematic(ctx["seed"]):
         # nested envelopes are shown as hex by parse (their names are checked when they are parsed themselves): keep this level only
         desc = {"SUIT_Envelope_Tagged": {k: v for k, v in desc["SUIT_Envelope_Tagged"].items() if k not in ("suit-integrated-payloads", "suit-integrated-dependencies")}}
@@ -220,9 +253,22 @@ def bounded(ctx):
         if sorted(a) != sorted(c):
             missing = sorted(set(a) - set(c)) + sorted(set(c) - set(a))
             B.fail("integers-render-back-as-names", {"name": name, "description": desc}, f"names differ after parse: {missing[:6]}")
+            continue
+        # the rendering is a function of the bytes: editing an earlier parse result through the object API does not change it
+        try:
+            n_edits, same = _history_ok(b, back)
+            edits += n_edits
+        except Exception as ex:  # noqa: BLE001
+            B.fail("rendering-unaffected-by-edits-of-an-earlier-result", {"name": name, "description": desc, "history": True}, f"{type(ex).__name__}: {str(ex)[:160]}")
+            continue
+        if not same:
+            B.fail("rendering-unaffected-by-edits-of-an-earlier-result", {"name": name, "description": desc, "history": True},
+                   "the second parse of the same bytes renders other names after the first result was edited in place")
     never = sorted(n for n in vocab if n not in used and n not in ("suit-delegation", "suit-integrated-payloads", "suit-integrated-dependencies", "suit-digest-bytes", "suit-digest-algorithm-id"))
     if never:
         raise RuntimeError(f"the systematic set does not use these names (harness gap, not a verdict): {never}")
+    if edits == 0:
+        raise RuntimeError("the history case edited no enumeration value (harness gap, not a verdict)")
     # (2) foreign names are rejected in every closed key space
     for space, (rel, cls, kind) in SPACE_CLASS.items():
         if kind != "map" or space not in MINIMAL:
@@ -267,6 +313,10 @@ def replay_case(case):
         e.update_severable_digests()
         e.update_digest()
         b = e.to_cbor()
+        if case.get("history"):
+            back = SuitEnvelopeTagged.from_cbor(b).to_obj()
+            _, same = _history_ok(b, back)
+            return same, None if same else "the second parse of the same bytes renders other names after the first result was edited in place"
         ok = b == RN.reference_bytes(case["description"])
         return ok, None if ok else "created bytes differ from the reference translation"
     except Exception as ex:  # noqa: BLE001
